@@ -265,7 +265,14 @@ func prop(c Case) error {
 	if err != nil {
 		return fmt.Errorf("reference reader rejects the text written after x and y were exchanged in place: %v\ntext: %s", err, text2)
 	}
-	return same("Marshal of the same object after x and y were exchanged in place [text "+clip(text2)+"]", g2, rm2)
+	if err := same("Marshal of the same object after x and y were exchanged in place [text "+clip(text2)+"]", g2, rm2); err != nil {
+		return err
+	}
+	// ... and so is the text of the encoder that wrote the object before the exchange
+	if text3, err := enc.Encode(t); err != nil || text3 != text2 {
+		return fmt.Errorf("the Encoder that wrote the object before x and y were exchanged in place now writes %q, %v; Marshal writes %q", clip(text3), err, clip(text2))
+	}
+	return nil
 }
 
 func clip(s string) string {
